@@ -135,14 +135,14 @@ func (c *Config) Proxy(closing chan bool, cc io.ReadWriter, url *url.URL) error 
 	go func() { // Forwards frames from client to server.
 		defer wg.Done()
 		defer stop()
-		if err := cToS.relayFrames(closing); err != nil {
+		if err := cToS.relayFrames(closing, stop); err != nil {
 			log.Errorf("relaying frame from client to %v: %v", url, err)
 		}
 	}()
 	go func() { // Forwards frames from server to client.
 		defer wg.Done()
 		defer stop()
-		if err := sToC.relayFrames(closing); err != nil {
+		if err := sToC.relayFrames(closing, stop); err != nil {
 			log.Errorf("relaying frame from %v to client: %v", url, err)
 		}
 	}()
